@@ -85,6 +85,11 @@ def run(ctx):
         key = (clause, detail.get("cfg"))
         if done.get(key, 0) >= 2:
             continue
+        tries = getattr(ctx, '_tries', None) or {}
+        ctx._tries = tries
+        tries[key] = tries.get(key, 0) + 1
+        if tries[key] > 12:
+            continue    # enough attempts to reproduce this clause
         again = validate(ctx, [dict(it, id="re")])
         if any(a[1] == clause and a[2].get("cfg") == detail.get("cfg") for a in again):
             done[key] = done.get(key, 0) + 1
